@@ -32,7 +32,7 @@ class A:
         PredicatePlan.tick()          # user code: counted, and may raise when the fault plan says so
         return self.n >= k
 
-    def n_plus(self, k=0):
+    def n_plus(self, k=1):         # the default is never used by a program: an explicit 0 must not fall back to it
         PredicatePlan.tick()
         return self.n + k
 
@@ -59,13 +59,25 @@ class B:
         PredicatePlan.tick()          # user code: counted, and may raise when the fault plan says so
         return self.n >= k
 
-    def n_plus(self, k=0):
+    def n_plus(self, k=1):         # the default is never used by a program: an explicit 0 must not fall back to it
         PredicatePlan.tick()
         return self.n + k
 
     def is_small(self):
         PredicatePlan.tick()
         return self.n < 2
+
+
+VALUE_FIELDS = ("n", "m", "s", "items", "t", "o", "d")
+
+
+@dataclass(eq=False)
+class AV(A):              # distinct objects that compare equal (value equality, as a plain @dataclass has it)
+    def __eq__(self, other):
+        return isinstance(other, A) and all(getattr(self, f) == getattr(other, f) for f in VALUE_FIELDS)
+
+    def __hash__(self):
+        return hash((self.n, self.m, self.s))
 
 
 @symbol
@@ -121,12 +133,20 @@ class PD:                 # inferable class with a non-None default: a field giv
 
 @symbol
 @dataclass(eq=False)
+class K:                  # a keyword-only field between two positional ones: __init__(self, a=0, b=0, *, w=7)
+    a: Any = 0
+    w: Any = field(default=7, kw_only=True)
+    b: Any = 0
+
+
+@symbol
+@dataclass(eq=False)
 class R:                  # second inferable class
     a: Any = None
     b: Any = None
 
 
-CLASSES = {c.__name__: c for c in (A, B, Base, Mid, Leaf, Other, P, PF, PD, R)}
+CLASSES = {c.__name__: c for c in (A, B, Base, Mid, Leaf, Other, P, PF, PD, R, K)}
 
 
 class Boom(Exception):
@@ -254,6 +274,8 @@ def build_world(W):
     heap = []
     for o in W["objs"]:
         cls = CLASSES[o["cls"]]
+        if W.get("eq") == "value" and cls is A:      # the same world with value equality on its objects
+            cls = AV
         heap.append(cls())
     for o, inst in zip(W["objs"], heap):
         for name, v in o["f"].items():
